@@ -480,6 +480,12 @@ func cropStsc(b *mp4.StscBox, lastSampleNr uint32) error {
 	nrChunksInLast := samplesLeft / lastEntry.SamplesPerChunk
 	nrLeft := samplesLeft - nrChunksInLast*lastEntry.SamplesPerChunk
 	if nrLeft > 0 {
+		if nrChunksInLast == 0 {
+			// The cut is inside the first chunk of the last entry: shorten that entry instead of
+			// adding a second entry with the same first chunk.
+			b.Entries[entryIdx].SamplesPerChunk = nrLeft
+			return nil
+		}
 		sdid := b.GetSampleDescriptionID(int(lastEntry.FirstChunk))
 		err := b.AddEntry(lastEntry.FirstChunk+nrChunksInLast, nrLeft, sdid)
 		if err != nil {
